@@ -36,22 +36,60 @@ type Case struct {
 	// EOFWithData: the read that delivers the last fragment also reports io.EOF (as io.Reader
 	// allows; iotest.DataErrReader, TLS with a pending close_notify and in-memory transports do it).
 	EOFWithData bool `json:"eof_with_data,omitempty"`
+	// NoPad: every message ends with its last AVP unpadded and declares exactly that many bytes
+	// (a peer that neither sends nor counts the final padding): the declared length is then not
+	// a multiple of four, and it - not its rounding - is what delimits the message.
+	NoPad bool `json:"no_pad,omitempty"`
+	// conn consumer: the handler answers every message; the WriteFaultAt-th transport Write
+	// (1-based, 0 = none) is refused with a temporary error. What happens to writes must not
+	// change what is read.
+	Answer       bool `json:"answer,omitempty"`
+	WriteFaultAt int  `json:"write_fault_at,omitempty"`
 }
 
 // message i: a CER-shaped request whose Origin-State-Id carries i and whose
 // filler (undefined code) sets the size.
-func message(i, filler int) []byte {
+func fillerPayload(i, filler int) []byte {
 	pay := make([]byte, filler)
 	for j := range pay {
 		pay[j] = byte(i*31 + j)
 	}
+	return pay
+}
+
+func message(i, filler int) []byte { return messageP(i, filler, false) }
+
+func messageP(i, filler int, noPad bool) []byte {
 	return refcodec.EncodeMessage(refcodec.Header{Version: 1, Flags: 0x80, Code: 257, App: 0, HopByHop: uint32(i), EndToEnd: uint32(1000 + i)},
-		[]*refcodec.Node{{Code: 278, Flags: 0x40, Payload: refcodec.U32(uint32(i))}, {Code: 3000001, Payload: pay}}, false)
+		[]*refcodec.Node{{Code: 278, Flags: 0x40, Payload: refcodec.U32(uint32(i))}, {Code: 3000001, Payload: fillerPayload(i, filler), NoPad: noPad}}, false)
+}
+
+// sameMessage compares a decoded message with the i-th message sent. Padded messages must
+// re-serialise to the bytes sent; an unpadded one is compared field by field (the library pads
+// when it serialises).
+func sameMessage(m *diam.Message, i, filler int, noPad bool, orig []byte) string {
+	if !noPad || filler%4 == 0 {
+		b, err := m.Serialize()
+		if err != nil || !bytes.Equal(b, orig) {
+			return fmt.Sprintf("differs from what was sent (err %v): got % x..., sent % x...", err, clip(b), clip(orig))
+		}
+		return ""
+	}
+	if int(m.Header.MessageLength) != len(orig) || m.Header.HopByHopID != uint32(i) || m.Header.EndToEndID != uint32(1000+i) || m.Header.CommandCode != 257 {
+		return fmt.Sprintf("header %+v, sent length %d hop-by-hop %d", m.Header, len(orig), i)
+	}
+	if len(m.AVP) != 2 || m.AVP[0].Code != 278 || m.AVP[1].Code != 3000001 {
+		return fmt.Sprintf("%d AVPs, sent Origin-State-Id and a %d-byte filler", len(m.AVP), filler)
+	}
+	if !bytes.Equal(m.AVP[0].Data.Serialize(), refcodec.U32(uint32(i))) || !bytes.Equal(m.AVP[1].Data.Serialize(), fillerPayload(i, filler)) {
+		return fmt.Sprintf("AVP values differ from what was sent (filler of %d bytes: got % x...)", filler, clip(m.AVP[1].Data.Serialize()))
+	}
+	return ""
 }
 
 func (c Case) stream() (msgs [][]byte, all []byte, extra int) {
 	for i, f := range c.Fillers {
-		m := message(i, f)
+		m := messageP(i, f, c.NoPad)
 		msgs = append(msgs, m)
 		all = append(all, m...)
 	}
@@ -136,9 +174,8 @@ func runDirect(c Case) *ev.Failure {
 			return ev.Failf("message-lost", "message %d of %d (length %d) was not returned: %v (reader consumed %d of %d bytes)", i, len(msgs), len(orig), err, r.consumed, len(all))
 		}
 		want += len(orig)
-		b, err := m.Serialize()
-		if err != nil || !bytes.Equal(b, orig) {
-			return ev.Failf("message-differs", "message %d differs from what was sent (err %v): got % x..., sent % x...", i, err, clip(b), clip(orig))
+		if d := sameMessage(m, i, c.Fillers[i], c.NoPad, orig); d != "" {
+			return ev.Failf("message-differs", "message %d (declared length %d) %s", i, len(orig), d)
 		}
 		if r.consumed != want {
 			return ev.Failf("consumed-bytes", "after message %d the reader had been asked for %d bytes, the declared lengths add up to %d", i, r.consumed, want)
@@ -176,7 +213,23 @@ func runConn(c Case) *ev.Failure {
 	// (a message must not depend on what the transport delivers after it)
 	got := make(chan *diam.Message, len(msgs)+8)
 	mux := diam.NewServeMux()
-	mux.HandleFunc("ALL", func(_ diam.Conn, m *diam.Message) { got <- m })
+	mux.HandleFunc("ALL", func(cn diam.Conn, m *diam.Message) {
+		got <- m
+		if c.Answer {
+			m.Answer(2001).WriteTo(cn) // the outcome of the write is not the subject here
+		}
+	})
+	if c.WriteFaultAt > 0 {
+		calls := 0
+		mc.WriteHook = func(b []byte, accept func([]byte)) (int, error) {
+			calls++
+			if calls == c.WriteFaultAt {
+				return 0, &memnet.TempError{Msg: "scripted temporary write error"}
+			}
+			accept(b)
+			return len(b), nil
+		}
+	}
 	stop := make(chan struct{})
 	defer close(stop)
 	go func() {
@@ -198,17 +251,16 @@ func runConn(c Case) *ev.Failure {
 		return ev.Failf("not-closed", "the connection loop did not close the transport within 10 s of the end of the stream")
 	}
 	close(got)
-	var recv [][]byte
+	var recv []*diam.Message
 	for m := range got {
-		b, _ := m.Serialize()
-		recv = append(recv, b)
+		recv = append(recv, m)
 	}
 	if len(recv) != len(msgs) {
-		return ev.Failf("conn-message-count", "%d complete messages were sent (tail: %s), the handler received %d", len(msgs), c.Tail.Kind, len(recv))
+		return ev.Failf("conn-message-count", "%d complete messages were sent (tail: %s; answers: %v, write refused: #%d), the handler received %d", len(msgs), c.Tail.Kind, c.Answer, c.WriteFaultAt, len(recv))
 	}
 	for i := range msgs {
-		if !bytes.Equal(recv[i], msgs[i]) {
-			return ev.Failf("message-differs", "connection loop: message %d differs from what was sent: got % x..., sent % x...", i, clip(recv[i]), clip(msgs[i]))
+		if d := sameMessage(recv[i], i, c.Fillers[i], c.NoPad, msgs[i]); d != "" {
+			return ev.Failf("message-differs", "connection loop: message %d (declared length %d) %s", i, len(msgs[i]), d)
 		}
 	}
 	return nil
@@ -233,6 +285,19 @@ func classify(c Case) (bool, []string) {
 	cl := []string{"consumer:" + c.Consumer, "tail:" + c.Tail.Kind}
 	if c.EOFWithData {
 		cl = append(cl, "eof-with-last-fragment")
+	}
+	if c.NoPad {
+		for _, f := range c.Fillers {
+			if f%4 != 0 {
+				cl = append(cl, "declared-length-not-multiple-of-4")
+			}
+		}
+	}
+	if c.Consumer == "conn" && c.Answer {
+		cl = append(cl, "handler-answers")
+		if c.WriteFaultAt > 0 && c.WriteFaultAt <= len(c.Fillers) {
+			cl = append(cl, "write-refused-while-reading")
+		}
 	}
 	// is there a read boundary strictly inside a message?
 	bounds := map[int]bool{}
@@ -308,6 +373,13 @@ func genCase(t *rapid.T) Case {
 	}
 	c.Consumer = rapid.SampledFrom([]string{"direct", "direct", "conn"}).Draw(t, "consumer")
 	c.EOFWithData = rapid.IntRange(0, 2).Draw(t, "eof-with-data") == 0
+	c.NoPad = rapid.IntRange(0, 3).Draw(t, "no-pad") == 0
+	if c.Consumer == "conn" && rapid.Bool().Draw(t, "answer") {
+		c.Answer = true
+		if rapid.Bool().Draw(t, "write-fault") {
+			c.WriteFaultAt = rapid.IntRange(1, n).Draw(t, "write-fault-at")
+		}
+	}
 	_, all, _ := c.stream()
 	switch rapid.IntRange(0, 3).Draw(t, "fragmentation") {
 	case 0: // everything in one segment
@@ -331,7 +403,7 @@ func genCase(t *rapid.T) Case {
 
 var prop = ev.Register(&ev.Prop[Case]{
 	ID: "C05", Name: "stream",
-	Rule: "1..6 messages with bodies around the 1 KiB pooled buffer (996..1040), tiny, ~4 KiB and ~70 KB, concatenated; tail = clean end / truncation 1..79 bytes into a further message / a header declaring length 0..19 followed by 0..120 bytes that look like further messages; fragmentation = one segment / runs of 1-byte reads / boundary-sized fragments; consumed by ReadMessage in a loop on a scripted reader (which counts the bytes asked for) and by the library's connection loop; non-trivial = >=2 messages and a read boundary strictly inside a message",
+	Rule: "1..6 messages with bodies around the 1 KiB pooled buffer (996..1040), tiny, ~4 KiB and ~70 KB, concatenated; tail = clean end / truncation 1..79 bytes into a further message / a header declaring length 0..19 followed by 0..120 bytes that look like further messages; fragmentation = one segment / runs of 1-byte reads / boundary-sized fragments; 1 in 4 cases with every message's last AVP unpadded and the declared length exact (not a multiple of 4); consumed by ReadMessage in a loop on a scripted reader (which counts the bytes asked for) and by the library's connection loop, whose handler optionally answers every message while one transport write is refused with a temporary error; non-trivial = >=2 messages and a read boundary strictly inside a message",
 	Gen:  genCase, Run: runCase, Classify: classify,
 })
 
